@@ -96,17 +96,25 @@ func opLess3(r *rand.Rand, n int, tier string) {
 			b.sig(&sigs[k])
 		}
 		b.WriteByte(')')
-		obs := ""
-		for x := 0; x < 3; x++ {
-			for y := 0; y < 3; y++ {
-				if x == y {
-					continue
-				}
-				obs += observeFirst(sigs[x], sigs[y])
-			}
-		}
-		emit("less3", fmt.Sprintf("less3-%d", i), b.String(), obs)
+		emitLess3(fmt.Sprintf("less3-%d", i), b.String())
 	}
+}
+
+func emitLess3(id, sigsSx string) {
+	var sigs []stack.Signature
+	for _, n := range parseSx(sigsSx).head("sigs") {
+		sigs = append(sigs, readSig(n))
+	}
+	obs := ""
+	for x := 0; x < 3; x++ {
+		for y := 0; y < 3; y++ {
+			if x == y {
+				continue
+			}
+			obs += observeFirst(sigs[x], sigs[y])
+		}
+	}
+	emit("less3", id, sigsSx, obs)
 }
 
 // observeFirst aggregates [x, y] (ids 1, 2, neither First) at ExactFlags and
